@@ -3,7 +3,8 @@
    visitor by K-front on the real parse trees of generated programs under many layouts; theorems below cover the parts
    that are quantified over unbounded objects: target-flag sequences of any length, namespace nesting of any depth. *)
 From Coq Require Import List String Bool Arith.
-From PDV Require Import Lib.StrUtil Idl.Cst Idl.Ast Idl.Resolver Idl.Visitor Idl.TargetsProofs Idl.VisitorProofs.
+From Coq Require Import Ascii.
+From PDV Require Import Lib.StrUtil Lang.Comment Idl.Cst Idl.Ast Idl.Resolver Idl.Visitor Idl.TargetsProofs Idl.VisitorProofs Idl.CommentCmd.
 Import ListNotations.
 Open Scope string_scope. Open Scope list_scope.
 
@@ -44,6 +45,30 @@ Theorem C03_namespace_path : forall e vc c s a s',
     mmap vc (rules "namespaceContent" c) s3 = Ok (children, s5).
 Proof. exact namespace_children_path. Qed.
 Print Assumptions C03_namespace_path.
+
+(* documentation commands (model Idl/CommentCmd.v, tied to markdown_plugins.py + comment_processor.py by K-commands):
+   the two documented spellings  @deprecated / \deprecated  (and @param / \param) denote the same thing, for any comment *)
+Theorem C03_command_spelling : forall name line, cmd_text name (swap_spelling line) = cmd_text name line.
+Proof. exact cmd_text_swap. Qed.
+Print Assumptions C03_command_spelling.
+
+Theorem C03_deprecated_spelling_free : forall lines, Forall (fun l => has_char nl l = false) lines -> lines <> [] ->
+  deprecated_of (join (String nl "") (map swap_spelling lines)) = deprecated_of (join (String nl "") lines).
+Proof. exact deprecated_spelling_free. Qed.
+Print Assumptions C03_deprecated_spelling_free.
+
+(* a comment without a deprecated command line leaves the declaration alone; otherwise the last such line decides *)
+Theorem C03_no_command_no_deprecation : forall comment,
+  Forall (fun l => cmd_text "deprecated" l = None) (split_on nl comment) -> deprecated_of comment = DNo.
+Proof. exact no_command_no_deprecation. Qed.
+Print Assumptions C03_no_command_no_deprecation.
+
+Theorem C03_last_deprecated_wins : forall before after line t,
+  cmd_text "deprecated" line = Some t -> Forall (fun l => cmd_text "deprecated" l = None) after ->
+  forall acc, fold_left (fun acc line => match cmd_text "deprecated" line with Some t => dep_of_text t | None => acc end) (before ++ line :: after) acc
+              = dep_of_text t.
+Proof. exact last_deprecated_wins. Qed.
+Print Assumptions C03_last_deprecated_wins.
 
 Example C03_targets_examples :
   let keys := ["cpp"; "cppcli"; "java"; "objc"; "yaml"] in
